@@ -170,6 +170,88 @@ Proof.
     apply (Hl x' Hx'). split; [congruence | lia].
 Qed.
 
+(** * Completeness: the checker decides the invariants *)
+Lemma sortedb_complete l : sorted l -> sortedb l = true.
+Proof.
+  induction 1 as [|x l Hs IH Hf]; [reflexivity|]. cbn [sortedb]. rewrite IH, andb_true_r.
+  apply forallb_forall. intros y Hy. rewrite Forall_forall in Hf. specialize (Hf y Hy).
+  unfold rlt in Hf. now rewrite Hf.
+Qed.
+
+Lemma geq_b_complete x y : geq x y -> geq_b x y = true.
+Proof.
+  unfold geq_b, geq. rewrite orb_true_iff, andb_true_iff, N.ltb_lt, N.eqb_eq, N.leb_le. tauto.
+Qed.
+
+Lemma src_before_b_complete A B : src_before A B -> src_before_b A B = true.
+Proof.
+  intro H. unfold src_before_b. apply forallb_forall. intros x Hx. apply forallb_forall. intros y Hy.
+  destruct (bytes_eqb (r_key x) (r_key y)) eqn:Ek; [|reflexivity].
+  destruct (r_ver x =? r_ver y) eqn:Ev; [|reflexivity]. cbn [andb negb orb].
+  apply N.leb_le. apply (H x y Hx Hy); [now apply bytes_eqb_eq | now apply N.eqb_eq].
+Qed.
+
+Lemma recs_geq_b_complete A B : recs_geq A B -> recs_geq_b A B = true.
+Proof.
+  intro H. unfold recs_geq_b. apply forallb_forall. intros x Hx. apply forallb_forall. intros y Hy.
+  destruct (bytes_eqb (r_key x) (r_key y)) eqn:Ek; [|reflexivity]. cbn [negb orb].
+  apply geq_b_complete. apply (H x y Hx Hy). now apply bytes_eqb_eq.
+Qed.
+
+Lemma within_b_complete t : within_ok t -> within_b t = true.
+Proof.
+  induction t as [|a T IH]; intro H; [reflexivity|]. apply within_ok_cons in H as [H1 H2].
+  cbn [within_b]. now rewrite (src_before_b_complete _ _ H1), (IH H2).
+Qed.
+
+Lemma tier_ok_b_complete t : tier_ok t -> tier_ok_b t = true.
+Proof.
+  intros (H1 & H2 & H3). unfold tier_ok_b. rewrite (within_b_complete _ H3), andb_true_r.
+  apply andb_true_iff. split; apply forallb_forall.
+  - intros a Ha. rewrite Forall_forall in H1. now apply sortedb_complete, H1.
+  - intros x Hx. now apply N.ltb_lt, H2.
+Qed.
+
+Lemma tiers_b_complete tiers : tier_inv tiers -> tiers_b tiers = true.
+Proof.
+  induction tiers as [|t R IH]; intro H; [reflexivity|]. apply tier_inv_cons in H as (H1 & H2 & H3).
+  cbn [tiers_b]. now rewrite (tier_ok_b_complete _ H1), (recs_geq_b_complete _ _ H2), (IH H3).
+Qed.
+
+Lemma main_disjoint_b_complete ts : main_disjoint ts -> main_disjoint_b ts = true.
+Proof.
+  induction ts as [|t ts IH]; cbn [main_disjoint main_disjoint_b]; [reflexivity|]. intros (H1 & H2 & H3).
+  rewrite (IH H3), andb_true_r. apply andb_true_iff. split; [destruct (t_recs t); [congruence | reflexivity]|].
+  apply forallb_forall. now apply Forall_forall.
+Qed.
+
+Lemma Forall_forallb {A} (f : A -> bool) (P : A -> Prop) l :
+  (forall x, P x -> f x = true) -> Forall P l -> forallb f l = true.
+Proof. intros H Hf. rewrite Forall_forall in Hf. apply forallb_forall. auto. Qed.
+
+Lemma level_b_complete lv :
+  Forall (Forall (fun t => sorted (t_recs t))) (lv_shards lv) /\
+  Forall (fun t => sorted (t_recs t)) (lv_main lv) /\ main_disjoint (lv_main lv) ->
+  level_b lv = true.
+Proof.
+  intros (H1 & H2 & H3). unfold level_b. rewrite (main_disjoint_b_complete _ H3), andb_true_r.
+  apply andb_true_iff. split.
+  - eapply Forall_forallb; [|exact H1]. intros sh. apply Forall_forallb. intros t. apply sortedb_complete.
+  - eapply Forall_forallb; [|exact H2]. intros t. apply sortedb_complete.
+Qed.
+
+Theorem tier_inv_b_complete s : src_inv s -> tier_inv (tiers_of s) -> tier_inv_b s = true.
+Proof.
+  intros [H1 H2 H3 H4 _] Ht. unfold tier_inv_b, src_b. rewrite (tiers_b_complete _ Ht), (sortedb_complete _ H1).
+  rewrite !andb_true_r. cbn [andb]. apply andb_true_iff. split; [apply andb_true_iff; split|].
+  - eapply Forall_forallb; [|exact H2]. intros m. apply sortedb_complete.
+  - eapply Forall_forallb; [|exact H3]. intros t. apply sortedb_complete.
+  - eapply Forall_forallb; [|exact H4]. exact level_b_complete.
+Qed.
+
+Theorem tier_inv_b_decides s : tier_inv_b s = true <-> src_inv s /\ tier_inv (tiers_of s).
+Proof. split; [apply tier_inv_b_sound | intros [H1 H2]; now apply tier_inv_b_complete]. Qed.
+
 (** The checker accepts the states of recency-ordered histories and rejects
     the two refuted witnesses of Proofs/LsmWitness.v. *)
 Example tier_inv_b_l0_tie : tier_inv_b (run (init 1) l0_tie) = true.
